@@ -324,6 +324,42 @@ pub fn run(cfg: &RunCfg) -> CheckReport {
         }
     });
     rep.part("long-texts", json!({"pairs": pairs.len(), "note": "enumerated family: long line texts (1-5 words per line, LF / CRLF / CR) derived from the large sequence inputs"}), ex);
+    if rep.has_violation() {
+        return rep;
+    }
+    // long LINES: lines of a words against the same line with b words appended / prepended /
+    // substituted in the middle, alone or followed by a second changed line (word-token counts
+    // on both sides of typical chunk sizes: 8, 64, 128, 256)
+    let mk = |from: usize, n: usize| -> String {
+        (from..from + n).map(|i| format!("w{}", i)).collect::<Vec<_>>().join(" ")
+    };
+    let mut lines: Vec<(String, String)> = vec![];
+    let a_list: Vec<usize> = cfg.tier.pick(vec![3, 22, 63, 64, 65, 127, 128, 129, 200], vec![3, 4, 5, 22, 31, 32, 33, 63, 64, 65, 127, 128, 129, 200, 255, 256, 257, 400]);
+    let b_list: Vec<usize> = cfg.tier.pick(vec![1, 43, 130], vec![1, 2, 43, 64, 130, 260]);
+    for &a in &a_list {
+        for &b in &b_list {
+            let base = mk(0, a);
+            lines.push((format!("{}\n", base), format!("{} {}\n", base, mk(1000, b))));
+            lines.push((format!("{} {}\n", base, mk(1000, b)), format!("{}\n", base)));
+            lines.push((format!("{}\n", base), format!("{} {}\n", mk(1000, b), base)));
+            lines.push((format!("{} {} {}\n", mk(0, a / 2), mk(2000, b), mk(a / 2, a - a / 2)), format!("{}\n", base)));
+            lines.push((format!("{}\nq r s\n", base), format!("{} {}\nq r t\n", base, mk(1000, b))));
+            lines.push((format!("{}", base), format!("{} {}\r\n", base, mk(1000, b))));
+        }
+    }
+    let ex = explore(cfg, lines.len(), |shard, acc| {
+        let (old, new) = &lines[shard];
+        match check_pair(old.as_bytes(), new.as_bytes()) {
+            Ok((nt, n, fp)) => {
+                if shard % 41 == 0 {
+                    acc.sample(json!({"old_words": old.split_whitespace().count(), "new_words": new.split_whitespace().count()}));
+                }
+                acc.ok(nt, n, fp);
+            }
+            Err(e) => acc.violation(|| (text_case(old.as_bytes(), new.as_bytes()), e)),
+        }
+    });
+    rep.part("long-lines", json!({"pairs": lines.len(), "line_lengths_in_words": a_list, "edit_sizes_in_words": b_list, "note": "enumerated family"}), ex);
     rep
 }
 
